@@ -55,6 +55,11 @@ pub struct StreamMon {
     pub end_in: bool,
     pub rst_in: bool,
     pub rst_in_code: Option<u32>,
+    /// executor step at which E processed the peer's first RST_STREAM; what E had emitted
+    /// and processed on the stream by then
+    pub rst_in_step: Option<u64>,
+    pub end_in_before_rst: bool,
+    pub end_out_before_rst: bool,
     // reserved by PUSH_PROMISE (out for a server, in for a client)
     pub reserved: bool,
     pub send_win: i64,
@@ -98,8 +103,13 @@ pub struct EpMon {
     /// frames E encoded, GOAWAY excluded
     pub frames_out_other: u64,
     pub own_sent: VecDeque<Vec<(u16, u32)>>,
+    /// C18: CONTINUATION frames of one header block E may process before it has to give up
+    /// (None = not asserted); frames processed in the current block
+    pub max_continuations_allowed: Option<usize>,
+    pub in_block_continuations: usize,
     /// in-frame index (1-based) of the last SETTINGS ACK that answered one of E's SETTINGS
     pub last_solicited_ack_in: usize,
+    pub last_solicited_ack_step: u64,
     pub own_acked: SettingsView,
     pub own_iws_max: u32,
     pub conn_send_win: i64,
@@ -150,7 +160,10 @@ impl EpMon {
             pings_in_mark: VecDeque::new(),
             frames_out_other: 0,
             own_sent: VecDeque::new(),
+            max_continuations_allowed: None,
+            in_block_continuations: 0,
             last_solicited_ack_in: 0,
+            last_solicited_ack_step: 0,
             own_acked: SettingsView::default(),
             own_iws_max: 65_535,
             conn_send_win: 65_535,
@@ -335,6 +348,15 @@ impl Monitor {
         // header block assembly: effects of HEADERS/PUSH_PROMISE happen when END_HEADERS arrives
         if let Some(sid) = e.in_block_open {
             if f.ty == CONTINUATION && f.sid == sid {
+                e.in_block_continuations += 1;
+                if let Some(lim) = e.max_continuations_allowed {
+                    if e.in_block_continuations == lim + 1 && e.goaway_out.is_empty() {
+                        let n = e.in_block_continuations;
+                        let who = name(side);
+                        self.viol("C18", "bound", "continuation:frames", format!("{} processed {} CONTINUATION frames of one header block without giving up (allowed by its configuration: {})", who, n, lim));
+                    }
+                }
+                let e = &mut self.ep[side];
                 if f.end_headers() {
                     e.in_block_open = None;
                     let first = e.in_block_first.take().unwrap();
@@ -354,6 +376,7 @@ impl Monitor {
                         e.own_acked.apply(&s);
                         if f.payload.is_empty() {
                             e.last_solicited_ack_in = e.in_idx;
+                            e.last_solicited_ack_step = self.ev_step;
                         }
                     }
                 } else if f.payload.len() % 6 == 0 {
@@ -407,12 +430,19 @@ impl Monitor {
                 } else {
                     e.in_block_open = Some(f.sid);
                     e.in_block_first = Some(f.clone());
+                    e.in_block_continuations = 0;
                 }
             }
             RST_STREAM => {
+                let st = self.ev_step;
                 if let Some(s) = e.streams.get_mut(&f.sid) {
+                    if !s.rst_in {
+                        s.rst_in_step = Some(st);
+                        s.rst_in_code = f.u32_at(0);
+                        s.end_in_before_rst = s.end_in;
+                        s.end_out_before_rst = s.end_out;
+                    }
                     s.rst_in = true;
-                    s.rst_in_code = f.u32_at(0);
                 }
                 self.after_in_close(side, f.sid);
             }
@@ -639,7 +669,8 @@ impl Monitor {
             }
             // C14: the frame E had just processed is the acknowledgement of a SETTINGS frame
             // E really sent; failing the connection over it treats it as answering nothing
-            if c == 1 && in_idx > 0 && e.last_solicited_ack_in == in_idx {
+            // (same poll: an application calling abrupt_shutdown(PROTOCOL_ERROR) later is not it)
+            if c == 1 && in_idx > 0 && e.last_solicited_ack_in == in_idx && e.last_solicited_ack_step == ev_step {
                 self.viol("C14", "solicited-settings-ack-rejected", "", format!("{} sent GOAWAY(PROTOCOL_ERROR) right after processing a SETTINGS ACK that answers a SETTINGS frame it had sent", who));
             }
             if let Some(p) = prev {
@@ -915,7 +946,8 @@ impl Monitor {
             }
         }
         for (o, m) in viols {
-            self.viol("C04", o, "PUSH_PROMISE", m);
+            // "no new streams after GOAWAY" is C15's clause (as for HEADERS above)
+            self.viol(if o == "new-stream-after-goaway-received" { "C15" } else { "C04" }, o, "PUSH_PROMISE", m);
         }
     }
 
